@@ -3,12 +3,18 @@
 (* against APIValidate (property C19).                                       *)
 (* case  : one description + the list of registration sets tried on it        *)
 (* events: validate {ri, ok, section, missing_reg, missing_spec, panic}       *)
-(*         serve    {ri, op, ctype, accept, status, ran, class}               *)
+(*         serve    {ri, op, ctype, accept, alt, status, ran, class}          *)
+(*         do       {act, arg, arg2, panic}   history cases: one call that     *)
+(*                  changes the registrations of the case's one API value;    *)
+(*                  validate / serve with ri = 0 refer to that value           *)
 EXTENDS APIValidate, Json, IOUtils
 
 VARIABLES l, st, skipping, fails, cs
 
-RInit(e) == [desc |-> e.desc, regs |-> e.regs]
+RInit(e) == [desc |-> e.desc, regs |-> e.regs, cur |-> NewAPI]
+
+\* ri = 0: the API value of a history case, as its registrations stand at this moment
+RegOf(s, e) == IF e.ri = 0 THEN s.cur ELSE s.regs[e.ri]
 
 NoDup(s) == Cardinality(Rng(s)) = Len(s)
 
@@ -16,19 +22,21 @@ VObs(e) == [ok |-> e.ok, section |-> e.section, missingSpec |-> Rng(e.missing_sp
 
 RAllowed(s, e) ==
   CASE e.ev = "validate" -> /\ ~e.panic
-                            /\ ValidateAllowed(s.desc, s.regs[e.ri], VObs(e))
+                            /\ ValidateAllowed(s.desc, RegOf(s, e), VObs(e))
                             /\ NoDup(e.missing_spec) /\ NoDup(e.missing_reg)
-    [] e.ev = "serve"    -> ServeAllowed(s.desc, s.regs[e.ri], e)
+    [] e.ev = "serve"    -> ServeAllowed(s.desc, RegOf(s, e), e)
+    [] e.ev = "do"       -> ~e.panic
     [] OTHER -> FALSE
 
 RWhy(s, e) ==
   CASE e.ev = "validate" -> IF e.panic THEN "validate-panics"
-                            ELSE IF ~ValidateAllowed(s.desc, s.regs[e.ri], VObs(e)) THEN ValidateWhy(s.desc, s.regs[e.ri], VObs(e))
+                            ELSE IF ~ValidateAllowed(s.desc, RegOf(s, e), VObs(e)) THEN ValidateWhy(s.desc, RegOf(s, e), VObs(e))
                             ELSE "item-reported-twice"
     [] e.ev = "serve"    -> "validated-api-fails-for-lack-of-registration"
+    [] e.ev = "do"       -> "registration-call-panics"
     [] OTHER -> "unknown-event"
 
-RStep(s, e) == s
+RStep(s, e) == IF e.ev = "do" THEN [s EXCEPT !.cur = Apply(@, e)] ELSE s
 
 TheTrace == ndJsonDeserialize(IOEnv.TRACE_FILE)
 TC == INSTANCE TraceCommon WITH TInit <- RInit, TAllowed <- RAllowed, TStep <- RStep,
